@@ -88,6 +88,10 @@ class Violation(Exception):
     pass
 
 
+class Runaway(Exception):
+    """raised by the target when a scenario exceeds its frame budget (non-terminating client loop)"""
+
+
 class Target:
     """one controller + its EtherNet/IP front end"""
 
@@ -115,12 +119,15 @@ class Target:
         self.writes = []                    # (tag name, byte offset, [bytes]) applied
         self.page_i = 0
         self.reachable = True
+        self.max_frames = 1500
         self.generic_hook = None            # optional: fn(service, segments, data, transport) -> CIP reply bytes or None
 
     # ------------------------------------------------------------------ encapsulation
     def handle(self, frame):
         """frame: bytes from the client -> reply bytes (list of ints) or None (no reply)"""
         self.frames += 1
+        if self.frames > self.max_frames:
+            raise Runaway("the client sent more than %d frames in one scenario: it does not terminate" % self.max_frames)
         try:
             req = eip.parse_request(frame)
         except eip.FrameError as e:
